@@ -11,6 +11,7 @@
 #include <signal.h>
 #include <unistd.h>
 
+#include <algorithm>
 #include <chrono>
 #include <cstdio>
 #include <cstring>
@@ -294,6 +295,18 @@ static void enumEdits(const std::string& seed, int alpha) {
         }
     } catch (...) {
     }
+    // identifiers of the seed itself are replacement candidates too (renaming a use to another declared name)
+    std::vector<std::string> idents;
+    std::vector<char> isIdent;
+    try {
+        Lexer lx2(seed);
+        for (auto& t : lx2.tokenize()) {
+            if (t.type == TokenType::Eof) continue;
+            isIdent.push_back(t.type == TokenType::Identifier);
+            if (t.type == TokenType::Identifier && std::find(idents.begin(), idents.end(), t.value) == idents.end() && idents.size() < 14) idents.push_back(t.value);
+        }
+    } catch (...) {
+    }
     if (mine()) checkInput(seed, g_n - 1);
     // truncation at every byte offset
     for (size_t cut = 0; cut < seed.size(); ++cut)
@@ -309,6 +322,9 @@ static void enumEdits(const std::string& seed, int alpha) {
             auto [o2, l2] = spans[i + 1];
             checkInput(seed.substr(0, off) + seed.substr(o2, l2) + seed.substr(off + len, o2 - off - len) + seed.substr(off, len) + seed.substr(o2 + l2), g_n - 1);
         }
+        if (i < isIdent.size() && isIdent[i])
+            for (auto& id : idents)
+                if (id != seed.substr(off, len) && mine()) checkInput(seed.substr(0, off) + id + seed.substr(off + len), g_n - 1);
         for (auto& tok : A) {
             if (mine()) checkInput(seed.substr(0, off) + tok + seed.substr(off + len), g_n - 1);        // replacement
             if (mine()) checkInput(seed.substr(0, off) + tok + " " + seed.substr(off), g_n - 1);        // insertion before
@@ -372,6 +388,36 @@ static void enumNest(int maxDepth) {
     }
 }
 
+// every inheritance graph on n <= N classes (each class extends one of the n classes, itself included, or nothing), over
+// several name pools (the analyser keeps classes in hash maps, so iteration order depends on the names) and both
+// declaration orders
+static void enumHier(int N) {
+    static const std::vector<std::vector<std::string>> POOLS = {
+        {"A", "B", "C", "D", "E"}, {"Shape", "Circle", "Disc", "Ring", "Dot"}, {"Zed", "X", "Tail", "Ball", "Q"}, {"Node", "Base", "Leaf", "Mid", "Top"}};
+    for (int n = 1; n <= N; ++n) {
+        std::vector<int> base(n, -1);
+        while (true) {
+            for (auto& pool : POOLS)
+                for (int rev = 0; rev < 2; ++rev) {
+                    if (!mine()) continue;
+                    std::string s;
+                    for (int k = 0; k < n; ++k) {
+                        int i = rev ? n - 1 - k : k;
+                        s += "class " + pool[i];
+                        if (base[i] >= 0) s += " extends " + pool[base[i]];
+                        s += " { public int f" + std::to_string(i) + "; public constructor() -> " + pool[i] + " = default; public virtual function m() -> int { return " + std::to_string(i) +
+                             "; } }\n";
+                    }
+                    s += "function main() -> void { " + pool[0] + " o = new " + pool[0] + "(); echo(o.m()); }\n";
+                    checkInput(s, g_n - 1);
+                }
+            int p = n - 1;
+            while (p >= 0 && ++base[p] == n) base[p--] = -1;
+            if (p < 0) break;
+        }
+    }
+}
+
 int main(int argc, char** argv) {
     signal(SIGPIPE, SIG_IGN);
     std::cout.setstate(std::ios::failbit);  // nothing the front end prints may interleave with the JSON summary
@@ -418,6 +464,9 @@ int main(int argc, char** argv) {
         std::ifstream in(argv[2], std::ios::binary);
         std::string s((std::istreambuf_iterator<char>(in)), std::istreambuf_iterator<char>());
         enumEdits(s, atoi(argv[3]));
+    } else if (cmd == "hier" && argc >= 7) {
+        common(3);
+        enumHier(atoi(argv[2]));
     } else if (cmd == "nest" && argc >= 7) {
         common(3);
         enumNest(atoi(argv[2]));
